@@ -139,6 +139,12 @@ EXT_HAND = [
     {"spec": "spec: exists X (q(X) and (p(X) <-> X > 0)).", "right": "p(X) :- q(X), X > 0.", "ug": UG0},
     {"spec": "spec: (exists X q(X)) <-> (exists X p(X)).", "right": "p(X) :- q(X), X > 0.", "ug": UG0},
     {"spec": "spec: not forall X (p(X) <-> q(X)).", "right": "p(X) :- q(X), X != 0.", "ug": UG0},
+    # a universally quantified equivalence with a variable on one side only; a private predicate without rules
+    {"spec": "spec: forall X Y (p(X) <-> t(X, Y)).", "right": "p(X) :- t(X, X).", "ug": "input: t/2. output: p/1."},
+    {"spec": "spec: forall X Y (t(X, Y) <-> p(X)).", "right": "p(X) :- t(X, Y).", "ug": "input: t/2. output: p/1."},
+    {"left": "p(X) :- q(X).", "right": "p(X) :- q(X), not aux(X).", "ug": UG0},
+    {"left": "p(X) :- q(X), not aux(X).", "right": "p(X) :- q(X).", "ug": UG0},
+    {"left": "s. p(X) :- q(X), s.", "right": "p(X) :- q(X).", "ug": UG0},
     # the same public rule over a shared private predicate that the two sides define differently
     {"left": "aux(X) :- q(X), X > 0. p(X) :- aux(X).", "right": "aux(X) :- q(X), X > 1. p(X) :- aux(X).", "ug": UG0},
     {"left": "s :- q(1). p(X) :- q(X), not s. :- s, q(2).", "right": "s :- q(0). p(X) :- q(X), not s. :- s, q(2).", "ug": UG0},
